@@ -122,22 +122,241 @@ mod verif_codec {
     codec_roundtrip!(k_codec_roundtrip_r2_a1, 2, 1, 7);
     codec_roundtrip!(k_codec_roundtrip_r0_a1, 0, 1, 7);
 
-    macro_rules! decode_total {
+    fn stub_delta_ok(
+        _r: &[u8],
+        _d: &[u8],
+    ) -> Result<Vec<Vec<u8>>, Box<dyn std::error::Error + Send + Sync>> {
+        Ok(Vec::new())
+    }
+
+    /// Harness-side reference: decoded size of a well-formed bitfield-rle stream, None if malformed
+    /// (truncated varint, truncated literal, varint longer than 5 bytes).
+    fn spec_rle_len(d: &[u8]) -> Option<usize> {
+        let mut off = 0usize;
+        let mut total = 0usize;
+        while off < d.len() {
+            let mut val: u64 = 0;
+            let mut shift = 0u32;
+            loop {
+                if off >= d.len() || shift > 28 {
+                    return None;
+                }
+                let b = d[off];
+                off += 1;
+                val |= ((b & 127) as u64) << shift;
+                shift += 7;
+                if b & 128 == 0 {
+                    break;
+                }
+            }
+            if val & 1 == 1 {
+                total += (val >> 2) as usize;
+            } else {
+                let l = (val >> 1) as usize;
+                if l > d.len() - off {
+                    return None;
+                }
+                off += l;
+                total += l;
+            }
+        }
+        Some(total)
+    }
+
+    macro_rules! rle_stage_total {
         ($name:ident, $n:expr, $unw:expr) => {
-            /// Totality: `decode` on every byte string of this length returns Ok or Err
-            /// (no panic, overflow or out-of-bounds access), one-byte reference.
+            /// Totality of the first (RLE) stage of the real `decode` on every byte string of this
+            /// length whose well-formed reading decodes to <= 4 bytes: no panic, overflow or
+            /// out-of-bounds access; malformed streams are rejected with Err, well-formed ones
+            /// accepted (the delta stage is stubbed here; k_delta_total_* decide it separately).
             #[kani::proof]
             #[kani::unwind($unw)]
+            #[kani::stub(crate::network::compression::delta_decode, stub_delta_ok)]
             fn $name() {
                 let data: [u8; $n] = kani::any();
+                let spec = spec_rle_len(&data[..]);
+                kani::assume(match spec {
+                    Some(n) => n <= 4,
+                    None => true,
+                });
                 let reference = [0u8; 1];
                 let r = decode(&reference, &data[..]);
-                kani::cover!(r.is_ok(), "some byte string decodes");
+                assert!(r.is_ok() == spec.is_some());
+                kani::cover!(r.is_ok(), "some byte string passes the RLE stage");
                 kani::cover!(r.is_err(), "some byte string is rejected");
                 core::mem::forget(r);
             }
         };
     }
-    decode_total!(k_decode_total_len1, 1, 6);
-    decode_total!(k_decode_total_len2, 2, 6);
+    rle_stage_total!(k_rle_stage_total_len1, 1, 7);
+    rle_stage_total!(k_rle_stage_total_len2, 2, 7);
+    rle_stage_total!(k_rle_stage_total_len3, 3, 7);
+
+    fn stub_rle_decode_empty<T: AsRef<[u8]>>(
+        _buf: T,
+    ) -> Result<Vec<u8>, Box<dyn std::error::Error + Send + Sync>> {
+        Ok(Vec::new())
+    }
+    fn stub_rle_identity_dec<T: AsRef<[u8]>>(
+        buf: T,
+    ) -> Result<Vec<u8>, Box<dyn std::error::Error + Send + Sync>> {
+        Ok(buf.as_ref().to_vec())
+    }
+    fn stub_rle_identity_enc<T: AsRef<[u8]>>(buf: T) -> Vec<u8> {
+        buf.as_ref().to_vec()
+    }
+
+    /// largest decoded size a legitimate packet can need: 129 pending inputs of 65535 bytes + prefix
+    const LEGIT_MAX: usize = 129 * (65535 + 2);
+
+    macro_rules! rle_guard {
+        ($name:ident, $n:expr, $unw:expr) => {
+            /// What the real `decode` lets through to `bitfield_rle::decode` (both later stages
+            /// stubbed): for every byte string of this length, a malformed stream (truncated varint
+            /// or literal) is rejected, a stream that would decode to more than 4x the legitimate
+            /// maximum is rejected (bounded allocation), and every well-formed stream of legitimate
+            /// size is accepted.
+            #[kani::proof]
+            #[kani::unwind($unw)]
+            #[kani::stub(crate::network::compression::delta_decode, stub_delta_ok)]
+            #[kani::stub(bitfield_rle::decode, stub_rle_decode_empty)]
+            fn $name() {
+                let data: [u8; $n] = kani::any();
+                let spec = spec_rle_len(&data[..]);
+                let reference = [0u8; 1];
+                let r = decode(&reference, &data[..]);
+                match spec {
+                    None => assert!(r.is_err()),
+                    Some(total) => {
+                        if total > 4 * LEGIT_MAX {
+                            assert!(r.is_err());
+                        }
+                        kani::cover!($n < 4 || total > 4 * LEGIT_MAX, "oversized stream rejected");
+                        if total <= LEGIT_MAX {
+                            assert!(r.is_ok());
+                        }
+                    }
+                }
+                kani::cover!(r.is_ok(), "accepted");
+                kani::cover!(spec.is_none(), "malformed");
+                core::mem::forget(r);
+            }
+        };
+    }
+    rle_guard!(k_rle_guard_len1, 1, 8);
+    rle_guard!(k_rle_guard_len2, 2, 8);
+    rle_guard!(k_rle_guard_len3, 3, 8);
+    rle_guard!(k_rle_guard_len4, 4, 8);
+    rle_guard!(k_rle_guard_len5, 5, 8);
+    rle_guard!(k_rle_guard_len6, 6, 9);
+
+    macro_rules! compose_roundtrip {
+        ($name:ident, $r:expr, $a:expr, $b:expr, $unw:expr) => {
+            /// Composition of the real `encode`/`decode` entry points with the RLE crate replaced
+            /// by the identity (justified by k_rle_roundtrip_*): decode(ref, encode(ref, xs)) == xs.
+            #[kani::proof]
+            #[kani::unwind($unw)]
+            #[kani::stub(bitfield_rle::decode, stub_rle_identity_dec)]
+            #[kani::stub(bitfield_rle::encode, stub_rle_identity_enc)]
+            fn $name() {
+                let reference: [u8; $r] = kani::any();
+                let x0: [u8; $a] = kani::any();
+                let x1: [u8; $b] = kani::any();
+                kani::assume($a + $b == 0 || (if $a > 0 { x0[0] } else { x1[0] }) < 16); // keeps the guard's reading of the (un-encoded) bytes small
+                let xs: Vec<Vec<u8>> = vec![x0.to_vec(), x1.to_vec()];
+                let enc = encode(&reference, xs.iter());
+                match decode(&reference, &enc) {
+                    Ok(out) => {
+                        assert!(out.len() == 2);
+                        assert!(slice_eq(&out[0], &x0));
+                        assert!(slice_eq(&out[1], &x1));
+                        kani::cover!(true, "decoded");
+                        core::mem::forget(out);
+                    }
+                    Err(_) => {}
+                }
+                core::mem::forget(xs);
+                core::mem::forget(enc);
+            }
+        };
+    }
+
+    macro_rules! delta_total {
+        ($name:ident, $n:expr, $mask:expr, $ok:expr, $unw:expr) => {
+            /// Delta stage totality on one length shape: the 2-byte length prefixes are the concrete
+            /// values of the shape (fitting lengths, a truncated prefix, or an over-long claim of
+            /// remaining+1/+2/+3/0xFFFF bytes), every payload byte and the reference are symbolic.
+            /// `delta_decode` must not panic, must accept exactly the well-formed shapes, and an
+            /// accepted buffer must re-encode to the same bytes (no byte dropped or invented).
+            #[kani::proof]
+            #[kani::unwind($unw)]
+            fn $name() {
+                const M: [Option<u8>; $n] = $mask;
+                let mut data = [0u8; $n];
+                let mut i = 0;
+                while i < $n {
+                    data[i] = match M[i] {
+                        Some(b) => b,
+                        None => kani::any(),
+                    };
+                    i += 1;
+                }
+                let reference: [u8; 2] = kani::any();
+                match delta_decode(&reference, &data[..]) {
+                    Ok(out) => {
+                        assert!($ok, "malformed buffer accepted");
+                        let enc = delta_encode(&reference, out.iter());
+                        assert!(slice_eq(&enc, &data));
+                        core::mem::forget(enc);
+                        core::mem::forget(out);
+                    }
+                    Err(_) => {
+                        assert!(!$ok, "well-formed buffer rejected");
+                    }
+                }
+                kani::cover!(true, "verdict reached");
+            }
+        };
+    }
+    // quick tier: every shape of total size <= 5 bytes
+    delta_total!(k_delta_total_l_trunc, 1, [None], false, 5);
+    delta_total!(k_delta_total_l_over_r0_k1, 2, [Some(1), Some(0)], false, 6);
+    delta_total!(k_delta_total_l_over_r0_k2, 2, [Some(2), Some(0)], false, 6);
+    delta_total!(k_delta_total_l_over_r0_k3, 2, [Some(3), Some(0)], false, 6);
+    delta_total!(k_delta_total_l_over_r0_kbig, 2, [Some(255), Some(255)], false, 6);
+    delta_total!(k_delta_total_l_over_r1_k1, 3, [Some(2), Some(0), None], false, 7);
+    delta_total!(k_delta_total_l_over_r1_k2, 3, [Some(3), Some(0), None], false, 7);
+    delta_total!(k_delta_total_l_over_r1_k3, 3, [Some(4), Some(0), None], false, 7);
+    delta_total!(k_delta_total_l_over_r1_kbig, 3, [Some(255), Some(255), None], false, 7);
+    delta_total!(k_delta_total_l_over_r2_k1, 4, [Some(3), Some(0), None, None], false, 8);
+    delta_total!(k_delta_total_l_over_r2_k2, 4, [Some(4), Some(0), None, None], false, 8);
+    delta_total!(k_delta_total_l_over_r2_k3, 4, [Some(5), Some(0), None, None], false, 8);
+    delta_total!(k_delta_total_l_over_r2_kbig, 4, [Some(255), Some(255), None, None], false, 8);
+    delta_total!(k_delta_total_l_over_r3_k1, 5, [Some(4), Some(0), None, None, None], false, 9);
+    delta_total!(k_delta_total_l_over_r3_k2, 5, [Some(5), Some(0), None, None, None], false, 9);
+    delta_total!(k_delta_total_l_over_r3_k3, 5, [Some(6), Some(0), None, None, None], false, 9);
+    delta_total!(k_delta_total_l_over_r3_kbig, 5, [Some(255), Some(255), None, None, None], false, 9);
+    delta_total!(k_delta_total_l0_end, 2, [Some(0), Some(0)], true, 6);
+    delta_total!(k_delta_total_l0_trunc, 3, [Some(0), Some(0), None], false, 7);
+    delta_total!(k_delta_total_l0_over_r0_k1, 4, [Some(0), Some(0), Some(1), Some(0)], false, 8);
+    delta_total!(k_delta_total_l0_over_r0_k2, 4, [Some(0), Some(0), Some(2), Some(0)], false, 8);
+    delta_total!(k_delta_total_l0_over_r0_k3, 4, [Some(0), Some(0), Some(3), Some(0)], false, 8);
+    delta_total!(k_delta_total_l0_over_r0_kbig, 4, [Some(0), Some(0), Some(255), Some(255)], false, 8);
+    delta_total!(k_delta_total_l0_over_r1_k1, 5, [Some(0), Some(0), Some(2), Some(0), None], false, 9);
+    delta_total!(k_delta_total_l0_over_r1_k2, 5, [Some(0), Some(0), Some(3), Some(0), None], false, 9);
+    delta_total!(k_delta_total_l0_over_r1_k3, 5, [Some(0), Some(0), Some(4), Some(0), None], false, 9);
+    delta_total!(k_delta_total_l0_over_r1_kbig, 5, [Some(0), Some(0), Some(255), Some(255), None], false, 9);
+    delta_total!(k_delta_total_l0_0_end, 4, [Some(0), Some(0), Some(0), Some(0)], true, 8);
+    delta_total!(k_delta_total_l0_0_trunc, 5, [Some(0), Some(0), Some(0), Some(0), None], false, 9);
+    delta_total!(k_delta_total_l0_1_end, 5, [Some(0), Some(0), Some(1), Some(0), None], true, 9);
+    delta_total!(k_delta_total_l1_end, 3, [Some(1), Some(0), None], true, 7);
+    delta_total!(k_delta_total_l1_trunc, 4, [Some(1), Some(0), None, None], false, 8);
+    delta_total!(k_delta_total_l1_over_r0_k1, 5, [Some(1), Some(0), None, Some(1), Some(0)], false, 9);
+    delta_total!(k_delta_total_l1_over_r0_k2, 5, [Some(1), Some(0), None, Some(2), Some(0)], false, 9);
+    delta_total!(k_delta_total_l1_over_r0_k3, 5, [Some(1), Some(0), None, Some(3), Some(0)], false, 9);
+    delta_total!(k_delta_total_l1_over_r0_kbig, 5, [Some(1), Some(0), None, Some(255), Some(255)], false, 9);
+    delta_total!(k_delta_total_l1_0_end, 5, [Some(1), Some(0), None, Some(0), Some(0)], true, 9);
+    delta_total!(k_delta_total_l2_end, 4, [Some(2), Some(0), None, None], true, 8);
+    delta_total!(k_delta_total_l2_trunc, 5, [Some(2), Some(0), None, None, None], false, 9);
+    delta_total!(k_delta_total_l3_end, 5, [Some(3), Some(0), None, None, None], true, 9);
 }
